@@ -230,7 +230,7 @@ func init() {
 			}),
 			rule("R08b", "Set dirties ⊆ Rollback cleans; Commit merges everything then resets", 5, func(r *Run) {
 				dirtyClean(r, ldb+"Set", ldb+"Rollback", map[string]string{})
-				core.Dominated{Fn: ldb + "Commit", Spec: spec(called("reset", ldb+"resetTx")), Sink: core.AnyReturn(), Need: []Fact{"reset"}, Min: 2}.Check(r)
+				core.Dominated{Fn: ldb + "Commit", Spec: spec(called("reset", ldb+"resetTx")), Sink: core.AnyReturn(), Need: []Fact{"reset"}, Min: 1}.Check(r)
 				core.NotAfter{Fn: ldb + "Commit", Early: []string{dbp + "KV.Set"}, Late: []string{ldb + "resetTx"}, Name: "the overlay is merged before it is reset", Min: 1,
 					EarlyOK: recvFieldCall("cache")}.Check(r)
 				core.CallArgs{Fn: ldb + "Commit", Callee: []string{dbp + "KV.Set"}, What: "copies the overlay entry the iterator stands on",
@@ -261,13 +261,13 @@ func init() {
 				}, true), core.BoolGuard("no-transaction", func(c *core.Ctx, e ast.Expr) bool {
 					sel, ok := ast.Unparen(e).(*ast.SelectorExpr)
 					return ok && sel.Sel.Name == "intx"
-				}, false)}}, Sink: core.CallSinkWhere("setdb2(l.txcache…)", []string{dbp + "setdb2"}, func(c *core.Ctx, call *ast.CallExpr) bool {
+				}, false)}}, Sink: core.CallSinkWhere("setdb2(l.txcache…)", kvSetters(r), func(c *core.Ctx, call *ast.CallExpr) bool {
 					return len(call.Args) == 3 && core.Mentions(dbp+"LocalDB.txcache")(c, call.Args[0])
 				}), Need: []Fact{"in-transaction"}, Min: 1}.Check(r)
 				core.Dominated{Fn: ldb + "Set", Spec: &core.FlowSpec{Conds: []core.CondGuard{core.BoolGuard("no-transaction", func(c *core.Ctx, e ast.Expr) bool {
 					sel, ok := ast.Unparen(e).(*ast.SelectorExpr)
 					return ok && sel.Sel.Name == "intx"
-				}, false)}}, Sink: core.CallSinkWhere("setdb2(l.cache…)", []string{dbp + "setdb2"}, func(c *core.Ctx, call *ast.CallExpr) bool {
+				}, false)}}, Sink: core.CallSinkWhere("setdb2(l.cache…)", kvSetters(r), func(c *core.Ctx, call *ast.CallExpr) bool {
 					return len(call.Args) == 3 && core.Mentions(dbp+"LocalDB.cache")(c, call.Args[0])
 				}), Need: []Fact{"no-transaction"}, Min: 1}.Check(r)
 			}),
